@@ -9,6 +9,9 @@ Streams
   fit     float    origins exactly on a constant / plane: fit_origin_background (torch, PCA), fit_origin and
                    _set_intensities_com(fit_function=…) (numpy, curve_fit) vs the surface; PCA path vs
                    Model fitPlanePCA with the eigenvector supplied by a float64 eigh
+  fitvar  float    fit_origin's curve_fit variants (constant, plane, parabola, bezier_two) on origins exactly on
+                   such a surface, with mask=None / all-True / partial masks, vs the surface and vs Model surfaceF
+                   run at Rat; parabola also through _set_intensities_com
   shift   exact    integer fitted origins: shift_origin_to for several batch sizes vs np.roll and vs the
                    model's periodic bilinear sampler run at Rat
 The property predicate uses plain Python `fractions` / NumPy oracles that do not involve the model.
@@ -18,8 +21,8 @@ from fractions import Fraction
 LEVEL = "proof"
 MANIFEST_ENTRY = {
     "category": "proof",
-    "text": "Lean 4 theorems over three separately written executable models of the centre-of-mass code (torch batched calculate_origin, numpy vectorised and looped _set_intensities_com): for every carrier (incl. binary64) the batched result is independent of the batch size and the three paths return the same values; over R each equals the intensity-weighted mean row/column index of the (masked) pattern; a constant fit of constant origins and a PCA plane fit (any null vector of the scatter form) or least-squares fit (any minimiser) of origins lying exactly on a plane/surface return that surface; shift_origin_to with integer origin is exactly the circular roll (bilinear weights (1,0,0,0), periodic index). Tied to the code on every run by bit-exact comparison on integer-valued patterns for every batch size, masks, non-square shapes.",
-    "note": "Proved: batch/path independence, COM = weighted mean, constant/plane exactness, integer shift = roll, all on the model. Measured only: torch.linalg.eigh and scipy curve_fit reach the fitted surface to float tolerance (PCA 5e-4 rel. float32, curve_fit 1e-6), grid_sample un-normalisation in float32 (1e-5*max). parabola/bezier_two fits are covered by the minimiser theorem but not exercised. Patterns with zero total (masked) intensity are outside the property (positive intensities).",
+    "text": "Lean 4 theorems over three separately written executable models of the centre-of-mass code (torch batched calculate_origin, numpy vectorised and looped _set_intensities_com): for every carrier (incl. binary64) the batched result is independent of the batch size and the three paths return the same values; over R each equals the intensity-weighted mean row/column index of the (masked) pattern; a constant fit of constant origins and a PCA plane fit (any null vector of the scatter form) or least-squares fit (any minimiser; instantiated for the modelled _plane/_parabola/_bezier_two families) of origins lying exactly on a plane/surface return that surface; shift_origin_to with integer origin is exactly the circular roll (bilinear weights (1,0,0,0), periodic index). Tied to the code on every run by bit-exact comparison on integer-valued patterns for every batch size, masks, non-square shapes.",
+    "note": "Proved: batch/path independence, COM = weighted mean, constant/plane exactness, integer shift = roll, all on the model. Measured only: torch.linalg.eigh and scipy curve_fit reach the fitted surface to float tolerance (PCA 5e-4 rel. float32, curve_fit 1e-6), grid_sample un-normalisation in float32 (1e-5*max). The curve_fit variants plane/parabola/bezier_two are modelled (surfaceF), covered in Lean by lsq_minimiser_exact / lsq_variants_exact (any least-squares minimiser reproduces data lying on the family) and exercised on exact surfaces with mask=None, all-True and partial masks. Patterns with zero total (masked) intensity are outside the property (positive intensities).",
     "technique": "Lean 4 proof (list induction, field algebra over R, floor/emod arithmetic) + exact model-vs-implementation correspondence",
 }
 RULE = ("com stream: one case = one 4-D dataset (scan sr x sc, detector h x w, integer intensities, optional mask) x one code path x one batch size; "
@@ -27,7 +30,8 @@ RULE = ("com stream: one case = one 4-D dataset (scan sr x sc, detector h x w, i
 TRUSTED = ["IEEE float32/float64 division is correctly rounded (torch, NumPy) — used to round the model's exact fraction",
            "torch.linalg.eigh / scipy.optimize.curve_fit (the eigenvector / minimiser is a parameter of the model; its quality is measured)",
            "torch.nn.functional.grid_sample semantics (bilinear, align_corners=True, zero padding) as modelled"]
-ASSUMPTIONS = ["intensities are positive integers <= 1000 on detectors <= 10x10 so that every partial sum is an exactly representable integer; mask values are multiples of 1/2",
+ASSUMPTIONS = ["partial position masks are generated for the plane and constant fits only (for parabola/bezier_two the unmasked positions need not determine the surface at the masked ones); the robust=True option of fit_origin is not exercised",
+               "intensities are positive integers <= 1000 on detectors <= 10x10 so that every partial sum is an exactly representable integer; mask values are multiples of 1/2",
                "plane fits need scan positions that are not collinear (sr, sc >= 2); 1 x n scans are used for the constant fit and the COM streams only",
                "fit tolerances: 5e-4*max(1,|z|) on float32 paths (torch PCA, com_fit), 1e-6*max(1,|z|) on fit_origin's float64 output; shift: 1e-5*max|I|"]
 EXPLANATION = ("Theorems in Props/C18.lean are about Model/Origin.lean; every run feeds integer-valued datasets to the real torch and numpy COM code "
@@ -174,6 +178,7 @@ def com_case(ctx, drv, ds, batch_sizes=None):
     m1 = drv.ask({"op": "com", "sr": sr, "sc": sc, "h": h, "w": w, "b": 1, "data": flat, "mask": mask_req})
     if "ok" not in m1:
         raise HarnessError(f"driver error {m1}")
+    ds_model = {}
     for path, vec in (("vec", True), ("loop", False)):
         ctx.count()
         ctx.dist[f"com:path={path}"] += 1
@@ -183,6 +188,7 @@ def com_case(ctx, drv, ds, batch_sizes=None):
         pd._set_intensities_com(data, dp_mask=None if mask is None else mask.copy(), fit_function="none", vectorized_calculation=vec)
         got = np.asarray(pd.com_measured)            # (2, sr, sc) float32
         impl = [[float(got[0, a, b]), float(got[1, a, b])] for a in range(sr) for b in range(sc)]
+        ds_model[path] = impl
         mg = m1["ok"][path]
         model = [[round_numpy(frac_of(mg[0][a][b])), round_numpy(frac_of(mg[1][a][b]))] for a in range(sr) for b in range(sc)]
         case = dict(case_base, path=path)
@@ -362,6 +368,105 @@ def fit_case(ctx, drv, fc):
 
 
 # ---------------------------------------------------------------------------------------
+# stream: fitvar — fit_origin's curve_fit variants and mask paths
+
+SURF_NPAR = {"constant": 1, "plane": 3, "parabola": 6, "bezier_two": 9}
+
+
+def surface(kind, th, x, y):
+    """the fitted families, written independently of the library (exact on dyadic coefficients / integer positions)"""
+    if kind == "constant":
+        return th[0] + 0 * x
+    if kind == "plane":                       # _plane(xy, mx, my, b)
+        return th[0] * x + th[1] * y + th[2]
+    if kind == "parabola":                    # _parabola(xy, c0, cx1, cx2, cy1, cy2, cxy)
+        return th[0] + th[1] * x + th[3] * y + th[2] * x * x + th[4] * y * y + th[5] * x * y
+    c00, c01, c02, c10, c11, c12, c20, c21, c22 = th    # _bezier_two
+    u, v = 1 - x, 1 - y
+    return (c00 * u * u * v * v + c10 * 2 * u * x * v * v + c20 * x * x * v * v + c01 * 2 * u * u * v * y + c11 * 4 * u * x * v * y
+            + c21 * 2 * x * x * v * y + c02 * u * u * y * y + c12 * 2 * u * x * y * y + c22 * x * x * y * y)
+
+
+def gen_fitvar(rng):
+    kind = rng.weighted([("constant", 1), ("plane", 3), ("parabola", 3), ("bezier_two", 3)])
+    lo = 3 if kind in ("parabola", "bezier_two") else 2
+    sr, sc = rng.randint(lo, 6), rng.randint(lo, 6)
+    if kind == "constant" and rng.chance(0.3):
+        sr = 1
+
+    def th():
+        if kind == "bezier_two":
+            return [rng.randint(-8, 8) / 8 for _ in range(9)]
+        return [rng.randint(-16, 16) / 16 for _ in range(SURF_NPAR[kind])]
+    mask = rng.weighted([("none", 4), ("all", 3), ("partial", 3 if kind in ("plane", "constant") and min(sr, sc) >= 3 else 0)])
+    holes = []
+    if mask == "partial":
+        holes = rng.sample([[a, b] for a in range(sr) for b in range(sc)], rng.randint(1, 2))
+    return {"sr": sr, "sc": sc, "kind": kind, "thr": th(), "thc": th(), "mask": mask, "holes": holes}
+
+
+def fitvar_case(ctx, drv, fv):
+    import numpy as np
+    from quantem.diffractive_imaging.ptycho_utils import fit_origin
+    sr, sc, kind = fv["sr"], fv["sc"], fv["kind"]
+    xs, ys = np.meshgrid(np.arange(sr, dtype=np.float64), np.arange(sc, dtype=np.float64), indexing="ij")
+    zr, zc = surface(kind, fv["thr"], xs, ys), surface(kind, fv["thc"], xs, ys)     # exact in binary64
+    scale = max(1.0, float(np.abs(zr).max()), float(np.abs(zc).max()))
+    case = {"stream": "fitvar", "fv": fv}
+    ctx.count()
+    ctx.mark(("fitvar", sr, sc, kind, fv["mask"]))
+    ctx.dist[f"fitvar:{kind}/mask={fv['mask']}"] += 1
+    # model: the same family evaluated at the exact carrier (ties _plane/_parabola/_bezier_two to Model/Origin.lean surfaceF)
+    m = drv.ask({"op": "surface", "kind": kind, "nx": sr, "ny": sc, "theta": [str(Fraction(t)) if Fraction(t).denominator != 1 else int(t) for t in fv["thr"]]})
+    if "ok" not in m:
+        raise HarnessError(f"driver error {m}")
+    mz = np.array([float(frac_of(v)) for v in m["ok"]]).reshape(sr, sc)
+    if fv["mask"] == "none":
+        mask = None
+    else:
+        mask = np.ones((sr, sc), bool)
+        for a, b in fv["holes"]:
+            mask[a, b] = False
+    try:
+        fr, fcc, _rr, _rc = fit_origin(data=(zr.copy(), zc.copy()), fit_function=kind, mask=mask)
+    except Exception as e:  # noqa
+        ctx.pred_fail(f"fit-origin-raises-mask-{fv['mask']}", f"fit_origin(fit_function='{kind}', mask={'None' if mask is None else fv['mask']}) raises {type(e).__name__}: {str(e)[:120]} "
+                      "on origins that lie exactly on the fitted surface", case, observed=f"{type(e).__name__}: {e}"[:300], required="the surface")
+        return
+    fr, fcc = np.asarray(fr, dtype=np.float64), np.asarray(fcc, dtype=np.float64)
+    if fr.shape != zr.shape:
+        ctx.pred_fail(f"fit-origin-{kind}", "fit_origin returns an array of a different shape than the data", case, observed=list(fr.shape), required=list(zr.shape))
+        return
+    d = float(np.abs(mz - fr).max()) / scale
+    ctx.stat_max(f"fit_origin_{kind}_model_vs_impl", d)
+    if d > 1e-6:
+        ctx.disagree(f"fitvar-{kind}", case, mz.tolist(), fr.tolist(), note="model surface at the true parameters vs fit_origin output")
+    dev = max(float(np.abs(fr - zr).max()), float(np.abs(fcc - zc).max())) / scale
+    ctx.stat_max(f"fit_origin_{kind}_rel_dev", dev)
+    if not dev <= 1e-6:
+        ctx.pred_fail(f"fit-origin-{kind}", f"fit_origin(fit_function='{kind}', mask={fv['mask']}) does not return the surface the data lie on", case,
+                      observed={"max_rel_dev": dev}, required="the surface (1e-6 relative)")
+    # through the dataset model: a delta on a uniform background has a centre of mass that is affine in the delta position,
+    # so delta rows a*a (columns b) put the measured origins exactly on a parabola in the scan index
+    if kind == "parabola" and sr <= 4:
+        h, w = 10, 9
+        arr = np.ones((sr, sc, h, w), dtype=np.float32)
+        for a in range(sr):
+            for b in range(sc):
+                arr[a, b, a * a, b + 1] += 300.0
+        pd = make_raster(arr)
+        pd._set_intensities_com(arr.copy(), fit_function="parabola", vectorized_calculation=bool(fv["thr"][0] >= 0))
+        cm, cf = np.asarray(pd.com_measured, dtype=np.float64), np.asarray(pd.com_fit, dtype=np.float64)
+        dev = float(np.abs(cm - cf).max()) / max(1.0, float(np.abs(cm).max()))
+        ctx.count()
+        ctx.stat_max("com_fit_parabola_rel_dev", dev)
+        if not dev <= TOL32:
+            ctx.pred_fail("com-fit-parabola", "_set_intensities_com(fit_function='parabola'): com_fit differs from com_measured although the measured origins lie exactly on a parabola",
+                          case, observed={"max_rel_dev": dev}, required="com_fit = com_measured (5e-4 relative)")
+    ctx.sample({"stream": "fitvar", "fv": fv}, limit=7)
+
+
+# ---------------------------------------------------------------------------------------
 # stream: shift
 
 def gen_shift(rng):
@@ -457,6 +562,10 @@ def run(ctx):
         for _ in range(ctx.n(150, 1000)):
             fc = gen_fit(rng)
             guarded(ctx, fit_case, {"stream": "fit", "fc": fc}, ctx, drv, fc)
+        rng = ctx.rng.fork(5)
+        for _ in range(ctx.n(120, 800)):
+            fv = gen_fitvar(rng)
+            guarded(ctx, fitvar_case, {"stream": "fitvar", "fv": fv}, ctx, drv, fv)
         rng = ctx.rng.fork(3)
         for _ in range(ctx.n(150, 1000)):
             sh = gen_shift(rng)
@@ -480,6 +589,8 @@ def replay(ctx, rep):
             com_case(ctx, drv, case["ds"], batch_sizes=[case["b"]] if "b" in case else None)
         elif st == "fit":
             fit_case(ctx, drv, case["fc"])
+        elif st == "fitvar":
+            fitvar_case(ctx, drv, case["fv"])
         elif st == "shift":
             shift_case(ctx, drv, case["sh"], batch_sizes=[case["b"]] if "b" in case else None)
         elif st == "e2e":
